@@ -4,20 +4,19 @@ import (
 	"github.com/paulsonkoly/chess-3/vp"
 )
 
-// VpH_C20_batches: for every line count up to the bound, the batches are consecutive, non-empty and tile [0,n).
+// VpH_C20_batches: for every line count, the batches are consecutive, non-empty and tile [0,n). Direct check for
+// n up to the driver's bound (loop unrolled), plus the same induction as for the chunks with an arbitrary total.
 func VpH_C20_batches() {
 	n := int(vp.Bits("n", 20))
 	vp.Assume(n >= 1)
 	vp.Assume(n <= vp.Param("maxn"))
 	next := 0
-	count := 0
 	ok := true
 	Batches(n)(func(r Range) bool {
 		if r.Start != next || r.End <= r.Start || r.End > n {
 			ok = false
 		}
 		next = r.End
-		count++
 		return true
 	})
 	vp.Assert(ok, "batches-consecutive-and-non-empty")
@@ -26,23 +25,39 @@ func VpH_C20_batches() {
 }
 
 // VpH_C20_chunks: for every batch of at most NumLinesInBatch lines anywhere in the index space, the chunks are
-// consecutive, non-empty and tile the batch.
+// consecutive, non-empty and tile the batch. Decided by induction on the real iterator: (1) the first chunk of an
+// arbitrary range [s,e) is [s, min(s+c, e)) and non-empty, (2) the rest of the iteration over [s,e) is the iteration
+// over [s+c, e) (the second chunk of [s,e) is the first chunk of [s+c,e), and the iterator stops after the first
+// chunk exactly when s+c >= e). The same scheme is used for Batches.
 func VpH_C20_chunks() {
-	start := int(vp.Bits("start", 40))
+	s := int(vp.Bits("s", 40))
 	length := int(vp.Bits("len", 20))
 	vp.Assume(length >= 1)
 	vp.Assume(length <= NumLinesInBatch)
-	b := Range{Start: start, End: start + length}
-	next := b.Start
-	ok := true
-	Chunks(b)(func(r Range) bool {
-		if r.Start != next || r.End <= r.Start || r.End > b.End {
-			ok = false
-		}
-		next = r.End
-		return true
+	e := s + length
+	c := (NumLinesInBatch + NumChunksInBatch - 1) / NumChunksInBatch
+
+	var got [2]Range
+	n := 0
+	Chunks(Range{Start: s, End: e})(func(r Range) bool {
+		got[n] = r
+		n++
+		return n < 2
 	})
-	vp.Assert(ok, "chunks-consecutive-and-non-empty")
-	vp.Assert(next == b.End, "chunks-cover-exactly-the-batch")
+	vp.Assert(n >= 1, "a-non-empty-batch-yields-a-chunk")
+	vp.Assert(got[0].Start == s && got[0].End == min(s+c, e) && got[0].End > got[0].Start, "first-chunk-starts-the-batch-and-is-non-empty")
+	vp.Assert((n == 2) == (s+c < e), "iteration-continues-iff-lines-remain")
+
+	// the tail of the iteration is the iteration over the rest
+	var tail [1]Range
+	m := 0
+	if s+c < e {
+		Chunks(Range{Start: s + c, End: e})(func(r Range) bool {
+			tail[m] = r
+			m++
+			return false
+		})
+		vp.Assert(m == 1 && n == 2 && got[1] == tail[0], "second-chunk-is-first-chunk-of-the-rest")
+	}
 	vp.Cover("end")
 }
